@@ -28,8 +28,10 @@ TRUSTED_BASE = [
 # Kani harnesses (kani/in_crate.rs, compiled inside /repo under cfg(kani)); bounded, never counted as proved
 KANI_HARNESSES = {
     'C02': [('k2_output_array_box_drop_once', 'N = 2, owning payload'), ('k2_future_array_drop_exactly_one', 'N = 2'),
-            ('k2_array_assume_init_identity', 'N = 2, all u16 values')],
-    'C04': [('k2_output_array_write_take_positional', 'N = 3, all u8 values, all write orders')],
+            ('k2_array_assume_init_identity', 'N = 2, all u16 values'),
+            ('k2_output_vec_box_drop_once', 'N = 2, owning payload, unwind 5'), ('k2_future_vec_drop_exactly_one', 'N = 2, unwind 5')],
+    'C04': [('k2_output_array_write_take_positional', 'N = 3, all u8 values, all write orders'),
+            ('k2_output_vec_write_take_positional', 'N = 2, all u8 values, both write orders, unwind 5')],
 }
 
 
